@@ -455,6 +455,33 @@ def _mentions_path(e, suffix):
     return any(x.get("k") == "Path" and (x.get("res") or "").endswith(suffix) for x in walk(e, pats=False))
 
 
+_PRED_MEMO = {}
+
+
+def _pred_is_class(e, cls):
+    """is `e` a call of a per-register predicate (`r.is_saved()`) that holds for exactly the registers of class `cls` (`saved_set`)? evaluated on all 32 registers, not trusted by name"""
+    if e.get("k") != "MethodCall" or e.get("args") or not e["name"].startswith("is_"):
+        return False
+    F = _PRED_MEMO.get("F")
+    c = callee_of(e) or ""
+    if F is None or c not in F.fns or "register" not in c:
+        return False
+    if (c, cls) not in _PRED_MEMO:
+        try:
+            from .p_c14 import _eval_reg_predicate
+            from .regs import class_sets
+            from .regs import to_num_table
+            tn, _ = to_num_table(F)
+            classes = class_sets(F)
+            got = {n for n in range(32) if _eval_reg_predicate(F, c, n, tn, classes)}
+            want = {tn[v] for v in classes[cls][0]} if cls in classes else None
+            _PRED_MEMO[(c, cls)] = (want is not None and got == want)
+        except Exception:
+            _PRED_MEMO[(c, cls)] = False
+    return _PRED_MEMO[(c, cls)]
+
+
+
 TRIGGERS = [
     # (lint type suffix, LintError variant, atom classifiers, expected(env) -> bool, atoms, what)
     ("SaveToZeroCheck", "SaveToZero",
@@ -471,7 +498,7 @@ TRIGGERS = [
       ("known", lambda e, t: e.get("k") == "MethodCall" and e["name"] == "is_some" and "known_ecall" in t)],
      lambda v: v["ecall"] and v["unknown"], ["ecall", "unknown"], "an ecall whose number is not known"),
     ("CalleeSavedGarbageReadCheck", "InvalidUseBeforeAssignment",
-     [("saved", lambda e, t: e.get("k") == "MethodCall" and e["name"] == "contains" and "saved_set" in t),
+     [("saved", lambda e, t: (e.get("k") == "MethodCall" and e["name"] == "contains" and "saved_set" in t) or _pred_is_class(e, "saved_set")),
       ("nomem", lambda e, t: e.get("k") == "MethodCall" and e["name"] == "is_none" and "uses_memory_location" in t),
       ("mem", lambda e, t: e.get("k") == "MethodCall" and e["name"] == "is_some" and "uses_memory_location" in t),
       ("orig", lambda e, t: e.get("k") == "MethodCall" and e["name"] == "is_original_value")],
@@ -493,6 +520,8 @@ def c05l(F, R):
     import itertools
     LE = "riscv_analysis::passes::lint_error::LintError"
     lints = pass_impls(F, LINTPASS)
+    _PRED_MEMO.clear()
+    _PRED_MEMO["F"] = F
     for suffix, variant, spec, expected, atoms, what in TRIGGERS:
         rp = [v for t, v in lints.items() if t.endswith(suffix)]
         if not rp:
